@@ -1,12 +1,12 @@
 SPECIFICATION SimSpec
 CONSTANTS
-  MaxLen = 5
+  MaxLen = 6
   MaxNew = 2
   MaxViews = 3
-  InitLens = {0, 2, 3, 4}
+  InitLens = {0, 2, 3, 4, 5}
   ThLen = 0
   ThIdx = 0
-  SimDepth = 8
+  SimDepth = 9
 INVARIANT Emit
 INVARIANT Distinct
 INVARIANT ExtentOK
